@@ -11,6 +11,8 @@ Families
   redirect   create_process(stdin=, stdout=, stderr=) to files, pipes,
              sockets, asyncio streams, other SSH processes, DEVNULL, STDOUT
   drain      SSHWriter.drain() against a peer that is not reading
+  writers    several tasks writing and draining on one channel: drain()
+             never returns while writing is paused
 """
 
 import asyncio
@@ -2610,6 +2612,183 @@ def drain_strategy(tier: str):
     return build()
 
 
+# ---------------------------------------------------------------------------
+# family: writers (several tasks writing and draining on one channel)
+# ---------------------------------------------------------------------------
+
+NT_WRITERS = {'drain-blocked-twice', 'two-blocked-together'}
+
+
+def run_writers(case) -> CaseResult:
+    """Two or three tasks each loop `write(chunk); await drain()` on the
+    streams of ONE channel (server: stdout and stderr; client: stdin), which
+    share the channel's write buffer and pause flag.  Whenever drain()
+    returns normally more can be written: writing is not paused at that
+    moment.  The peer reads everything; every writer's bytes arrive in
+    order"""
+
+    labels = set()
+    chunker = chunker_of(case)
+    holder = {}
+    side = case['side']
+    win, pkt, high = case['win'], case['pkt'], case['high']
+    low = high // 4
+    plans = case['plans']          # per writer: list of chunk sizes
+    events: List = []
+    returns: List = []
+    blocked_now = [0]
+
+    def paused() -> bool:
+        return bool(events) and events[-1] == 'pause_writing'
+
+    def hook(writer):
+        session, _ = writer.get_redirect_info()
+
+        if getattr(session, '_c19_hooked', False):
+            return
+
+        session._c19_hooked = True       # pylint: disable=protected-access
+
+        for name in ('pause_writing', 'resume_writing'):
+            def cb(name=name, orig=getattr(session, name)):
+                events.append(name)
+                orig()
+            setattr(session, name, cb)
+
+    async def writer_task(idx, writer, sizes):
+        mark = 'abc'[idx]
+
+        for n in sizes:
+            writer.write((mark * n).encode())
+            was = paused()
+
+            if was:
+                blocked_now[0] += 1
+                if blocked_now[0] >= 2:
+                    labels.add('two-blocked-together')
+            try:
+                await writer.drain()
+            finally:
+                if was:
+                    blocked_now[0] -= 1
+
+            returns.append((idx, was, paused(),
+                            writer.channel.get_write_buffer_size()))
+
+    async def body(stdin, stdout, stderr, chan):
+        holder.update(stdin=stdin, stdout=stdout, stderr=stderr, chan=chan)
+
+        if side == 'server':
+            hook(stdout)
+            chan.set_write_buffer_limits(high, low)
+            ws = [stdout, stderr, stdout]
+            await asyncio.gather(*(writer_task(i, ws[i], plan)
+                                   for i, plan in enumerate(plans)))
+            chan.exit(0)
+        else:
+            got = await stdin.read()
+            holder['got'] = got
+            chan.exit(0)
+
+    sopts = dict(encoding=None)
+
+    if side == 'client':
+        sopts.update(window=win, max_pktsize=pkt)
+
+    pair = make_pair(case, body, case['sapi'], **sopts)
+    h = pair.h
+
+    try:
+        pair.handshake(chunker)
+        kw = dict(encoding=None)
+
+        if side == 'server':
+            kw.update(window=win, max_pktsize=pkt)
+
+        async def client():
+            cin, cout, cerr = await pair.c.open_session('cmd', **kw)
+
+            if side == 'server':
+                out, err = await asyncio.gather(cout.read(), cerr.read())
+                return out, err
+
+            hook(cin)
+            cin.channel.set_write_buffer_limits(high, low)
+            await asyncio.gather(*(writer_task(i, cin, plan)
+                                   for i, plan in enumerate(plans)))
+            cin.write_eof()
+            await cout.read()
+            return holder.get('got'), b''
+
+        out, err = run_hang(h, client(), chunker, 'writers')
+        h.pump(chunker)
+
+        for idx, was, now, size in returns:
+            if now:
+                raise Violation(
+                    'drain-early', 'drain() of writer %d returned normally '
+                    'while writing is paused (%d bytes buffered, high-water '
+                    'mark %d): nothing more can be written' %
+                    (idx, size, high), 'drain-returned-while-paused')
+
+        if sum(1 for r in returns if r[1]) >= 2:
+            labels.add('drain-blocked-twice')
+
+        labels.add('side-' + side)
+        labels.add('writers-%d' % len(plans))
+
+        # every writer's bytes arrive, in order (per stream)
+        if side == 'server':
+            want_out = {0: sum(plans[0]), 2: sum(plans[2])
+                        if len(plans) > 2 else 0}
+            want_err = sum(plans[1]) if len(plans) > 1 else 0
+            got_out = {0: out.count(b'a'), 2: out.count(b'c')}
+            ok = got_out == want_out and err == b'b' * want_err and \
+                len(out) == sum(want_out.values())
+        else:
+            ok = out is not None and all(
+                out.count('abc'[i].encode()) == sum(plan)
+                for i, plan in enumerate(plans)) and \
+                len(out) == sum(map(sum, plans))
+
+        if not ok:
+            raise Violation('data', 'peer read %d+%d bytes, writers wrote %r'
+                            % (len(out or b''), len(err or b''),
+                               [sum(p) for p in plans]), 'writers:data')
+
+        return finish_case(h, labels, NT_WRITERS)
+    finally:
+        pair.close()
+
+
+def writers_strategy(tier: str):
+    @st.composite
+    def build(draw):
+        high = draw(pick([64, 1000, 65536]))
+        win = draw(pick([64, 4096, 32768]))
+        pkt = draw(pick([64, 32768]))
+        big = st.one_of(pick([high + 1, 2 * high, 4 * high, high + win]),
+                        st.integers(1, high))
+        nw = draw(pick([2, 2, 3]))
+        plans = [draw(st.lists(big, min_size=1, max_size=4))
+                 for _ in range(nw)]
+        cap = 600000
+
+        while sum(map(sum, plans)) > cap:
+            max(plans, key=sum).pop()
+
+        return {'side': draw(pick(['server', 'client'])),
+                'sapi': draw(pick(['session', 'process'])),
+                'win': win, 'pkt': pkt, 'high': high,
+                'plans': [p or [1] for p in plans],
+                'chunks': draw(st.one_of(
+                    st.just([]), st.just([4096]),
+                    st.lists(st.integers(100, 4000), min_size=1,
+                             max_size=4)))}
+
+    return build()
+
+
 FAMILIES = [
     Family('reader', run_reader, strategy=reader_strategy,
            budget={'quick': 600, 'thorough': 12000},
@@ -2652,5 +2831,11 @@ FAMILIES = [
                              'closed-while-paused', 'finish-read',
                              'finish-peer-close', 'finish-cut',
                              'finish-abort', 'side-client', 'side-server']},
+           timeout_is_violation=True, case_timeout=120),
+    Family('writers', run_writers, strategy=writers_strategy,
+           budget={'quick': 160, 'thorough': 3000},
+           required={'all': ['drain-blocked-twice', 'two-blocked-together',
+                             'side-client', 'side-server', 'writers-2',
+                             'writers-3']},
            timeout_is_violation=True, case_timeout=120),
 ]
